@@ -256,12 +256,7 @@ Proof.
       * intros E; inversion E; subst. apply invalid_ok. cbn [valid_args]. rewrite P0. reflexivity.
       * apply (wrapped_sys_ok w x (Rlimit rsrc [a; b])). cbn [valid_args]. rewrite P0. reflexivity.
       * intros E; inversion E; subst. apply invalid_ok. cbn [valid_args]. rewrite P0. reflexivity.
-  - destruct cpus as [|c l].
-    + rewrite kexists_view. destruct (lookup (table w) (opid x)) eqn:L.
-      * apply (wrapped_sys_ok w x (Affinity [])). reflexivity.
-      * intros E; inversion E; subst. unfold body_ok. cbn [valid_args]. rewrite owner_lookup, L.
-        rewrite (esrch_none _ _ L). splits; auto.
-    + apply (wrapped_sys_ok w x (Affinity (c :: l))). reflexivity.
+  - apply (wrapped_sys_ok w x (Affinity cpus)). reflexivity.
 Qed.
 
 Lemma body_ok_obj w x1 i s x2 r2 scs :
